@@ -83,6 +83,32 @@ claim("C04", "proof",
       "of the PRF step proofs.",
       "CBMC code contracts (DFCC) for PRF; harness-asserted postconditions over specification stubs for HMAC", "4/C04")
 
+claim("C10", "proof",
+      "64-bit C masked backend: every masked-word operation for 2/3/4 shares, the masked-key init/extract/randomize "
+      "functions, all masked-state conversions and the three masked permutations are proved to compute the specified "
+      "function of the UNMASKED value for every value returned by the random source (a stub returning an arbitrary word "
+      "per call) and every share pattern; 'every share changes on re-randomisation' is checked by requiring each "
+      "'share k unchanged for all tapes' obligation to be refuted (this found and led to the repair of defect D1).",
+      "Not covered: x86-64 masked assembly (default on this host), 32-bit and direct-xor masked word backends, the masked "
+      "AEAD entry points. The x4 round lemma runs in the thorough tier only.",
+      "CBMC: full-domain assertions on loop-free code, loop contracts + enforced function contracts for the masked permutations, must-refute obligations", "4/C10")
+claim("C13", "proof",
+      "Every C free/clear function is enforced from an arbitrary object against 'every named field is zero afterwards' "
+      "with the frame 'only this object' (25 functions: permutation state, incremental AEAD, XOF/hash, PRF, HMAC, KMAC, "
+      "KDF, HKDF, PRNG, ISAP keys, masked keys and states).",
+      "Source-level only: whether the optimiser keeps the wipe, and libc's explicit_bzero/memset_s, are trusted; the "
+      "portable fallback loop of ascon_clean is what is inlined. C++ destructors and stack temporaries of one-shot "
+      "functions are not covered.",
+      "CBMC code contracts (DFCC): enforced function contracts with a universally chosen ghost byte index", "4/C13")
+claim("C16", "other",
+      "No hidden mutable global state: the goto symbol table of every library translation unit is scanned for "
+      "static-lifetime non-const objects defined under /repo/src (must be none), and representative public entry points "
+      "are re-verified with assigns clauses that name only argument-reachable objects; race freedom for distinct objects "
+      "then follows by argument (disjoint write sets, nothing shared is written).",
+      "CBMC has no thread semantics for this: the interleaving conclusion is an inference, hence level 'other'. A write "
+      "to a shared const object through a cast is only caught where the function is under a contract with a frame.",
+      "goto symbol-table scan + DFCC assigns-clause (frame) checking", "4/C16")
+
 NA_DEFAULT = {
     "C11": "secret-independence of control flow and addresses is a relational (2-safety) property of the shipped object code; a CBMC contract describes one execution of the C source and has no taint or relational mode (DESIGN section 6)",
     "C17": "compilability of C++ members is a compiler verdict, and CBMC's C++ front end rejects this repository's C++ (DESIGN 2.8, section 6)",
